@@ -882,6 +882,8 @@ def run(ctx):   # noqa: F811
     c11_extra.run_round3(ctx)
     from harness import c11_graded
     c11_graded.run(ctx)
+    from harness import c11_dtypes
+    c11_dtypes.run(ctx)
 
 def replay(path):
     d = json.load(open(path))
@@ -890,6 +892,9 @@ def replay(path):
     if 'net' in rep and 'history' in rep:
         from harness import c11_extra
         return c11_extra.replay_history(rep)
+    if 'pairwise_dtypes' in rep:
+        from harness import c11_dtypes
+        return c11_dtypes.replay_pairwise(rep)
     if 'positive_real_net' in rep:
         from harness import c11_graded
         return c11_graded.replay_positive(rep)
